@@ -14,7 +14,8 @@
 //    an update that does not change X may or may not re-synchronise X's aliases.
 //  * constraints: both ends of a fresh link accept exactly the intersection of the constraints they had; when
 //    only the aliased end was constrained the source gets that constraint; when only the source was
-//    constrained the aliased end may stay unconstrained.
+//    constrained the aliased end may stay unconstrained.  "Exactly" is meant: group `near` links constraints
+//    whose bounds differ by a few ulps .. 1e-9 only and probes acceptance between and next to those bounds.
 //  * refusals (double alias, cycle of any length incl. self alias) must raise and leave every observable of
 //    every live object unchanged.
 #include "vrt.h"
@@ -122,6 +123,14 @@ const vector<double>& valueGrid()
   return g;
 }
 
+// Case-local additions to the two grids (group `near`: bounds that differ by a few ulps .. 1e-9 need probes
+// and values between and next to them).  Emptied by every World, so the other groups see the fixed grids.
+vector<double>& xProbe() { static vector<double> v; return v; }
+vector<double>& xValue() { static vector<double> v; return v; }
+
+// two different bounds closer than the default precision of an interval (1e-12) or a little more
+bool nearBound(double a, double b) { return a != b && std::fabs(a - b) <= 1e-11; }
+
 // ---------------------------------------------------------------- the test double
 class TD : public AbstractParameterAliasable
 {
@@ -218,12 +227,13 @@ struct Model
     vector<int> d = desc(i);
     d.push_back(i);
     vector<double> out;
-    for (double x : valueGrid())
-    {
-      bool ok = true;
-      for (int j : d) ok = ok && okI(con[static_cast<size_t>(j)], x);
-      if (ok) out.push_back(x);
-    }
+    for (int pass = 0; pass < 2; ++pass)
+      for (double x : (pass == 0 ? valueGrid() : xValue()))
+      {
+        bool ok = true;
+        for (int j : d) ok = ok && okI(con[static_cast<size_t>(j)], x);
+        if (ok) out.push_back(x);
+      }
     return out;
   }
   string dump() const
@@ -279,7 +289,13 @@ struct World
   vector<string> hist;
   int nextTag;
   bool avoidStale;
-  World(vrt::Case& cc) : c(cc), live(), hist(), nextTag(0), avoidStale(vrt::known(KNOWN_STALE)) {}
+  bool near;            // group `near`: the constraints come from `family`
+  vector<Itv> family;   // intervals whose lower and/or upper bounds are pairwise different but almost equal
+  World(vrt::Case& cc) : c(cc), live(), hist(), nextTag(0), avoidStale(vrt::known(KNOWN_STALE)), near(false), family()
+  {
+    xProbe().clear();
+    xValue().clear();
+  }
   string history() const
   {
     string s;
@@ -480,10 +496,13 @@ bool audit(World& w, Obj& o, const string& after, const Expect* ex)
       const Parameter& p = o.real->parameter(m.nm[ui]);
       bool has = p.hasConstraint();
       Itv rb = readItv(p);
-      const vector<double>& grid = probeGrid();
+      const vector<double>& grid0 = probeGrid();
+      const vector<double>& grid1 = xProbe();
+      const size_t nProbe = grid0.size() + grid1.size();
       std::shared_ptr<const ConstraintInterface> rc = p.getConstraint();
-      for (double x : grid)
+      for (size_t g = 0; g < nProbe; ++g)
       {
+        double x = g < grid0.size() ? grid0[g] : grid1[g - grid0.size()];
         bool r = !has || rc->isCorrect(x);
         bool tooNarrow = okI(L, x) && !r, tooWide = r && !okI(U, x);
         if (tooNarrow || tooWide)
@@ -500,7 +519,7 @@ bool audit(World& w, Obj& o, const string& after, const Expect* ex)
           return false;
         }
       }
-      vrt::counted("constraint.acceptance", 2 * grid.size());
+      vrt::counted("constraint.acceptance", 2 * nProbe);
       m.con[ui] = rb;
     }
   }
@@ -540,6 +559,89 @@ const vector<string>& nsPool()
   return p;
 }
 
+// ---- group `near`: a family of six intervals around one base interval.  On the "near" side(s) the six bounds are
+// pairwise different but differ from the base by 0, a few ulps, 1e-15 .. 9e-13 (inside the default precision of
+// an interval, 1e-12), sometimes 2e-12 or 1e-9; on a "far" side they are either one common bound with one common
+// flag, or clearly different.  Open/closed flags are free (no two members share a bound on a near side).  Also
+// fills the case-local probes (every bound, its two neighbours, the midpoints between neighbouring bounds, i.e.
+// values inside one member and outside the other) and values (bounds, neighbours, interior points).
+void makeFamily(World& w)
+{
+  vrt::Rng& r = w.c.rng;
+  static const double lowBases[] = { 0., 0., 1e-9, -3e-8, 2.5e-7, 0.75, -1.5, 0.1 };
+  static const double upBases[] = { 0., 0., -1e-9, 3e-8, -2.5e-7, 3.25, 4.5, 0.3 };
+  static const double absDeltas[] = { 1e-15, 1e-14, 1e-13, 3e-13, 5e-13, 9e-13 };
+  const size_t N = 6;
+  int shape = static_cast<int>(r.below(5)); // 0,1: lower side near; 2,3: upper side near; 4: both
+  bool nearL = shape <= 1 || shape == 4, nearH = shape >= 2;
+  double bL, bH;
+  if (nearL && nearH)
+  {
+    if (r.chance(0.25)) { bL = -3e-8; bH = 3e-8; }
+    else { bL = lowBases[r.below(7)]; bH = r.chance(0.5) ? 3.25 : 4.5; }
+  }
+  else if (nearL) { bL = lowBases[r.below(8)]; bH = 4.25; }
+  else { bH = upBases[r.below(8)]; bL = -4.25; }
+  auto perturbed = [&](double base) {
+      vector<double> out;
+      for (int tries = 0; out.size() < N && tries < 200; ++tries)
+      {
+        double b = base;
+        double k = r.unit();
+        bool up = r.chance(0.5);
+        if (k < 0.12) {}
+        else if (k < 0.45)
+        {
+          static const int steps[] = { 1, 2, 3, 7 };
+          int s = steps[r.below(4)];
+          for (int q = 0; q < s; ++q) b = std::nextafter(b, up ? INF : -INF);
+        }
+        else if (k < 0.88) b = base + (up ? 1. : -1.) * absDeltas[r.below(6)];
+        else b = base + (up ? 1. : -1.) * (r.chance(0.5) ? 2e-12 : 1e-9);
+        if (find(out.begin(), out.end(), b) == out.end()) out.push_back(b);
+      }
+      return out;
+    };
+  auto farSide = [&](double base, double dir) {
+      vector<double> out;
+      int kind = static_cast<int>(r.below(3)); // one common bound, clearly different bounds, no bound
+      for (size_t i = 0; i < N; ++i) out.push_back(kind == 0 ? base : kind == 1 ? base + dir * 0.5 * static_cast<double>(i) : dir * INF);
+      return out;
+    };
+  vector<double> los = nearL ? perturbed(bL) : farSide(bL, -1.), his = nearH ? perturbed(bH) : farSide(bH, 1.);
+  bool farFlag = r.chance(0.5);
+  w.family.clear();
+  for (size_t i = 0; i < N && i < los.size() && i < his.size(); ++i)
+  {
+    Itv c = { true, los[i], his[i], nearL ? r.chance(0.5) : (std::isfinite(los[i]) && farFlag), nearH ? r.chance(0.5) : (std::isfinite(his[i]) && farFlag) };
+    // a far side made of clearly different bounds may have any flags
+    if (!nearL && std::isfinite(los[i]) && los[0] != los[N - 1]) c.il = r.chance(0.5);
+    if (!nearH && std::isfinite(his[i]) && his[0] != his[N - 1]) c.iu = r.chance(0.5);
+    w.family.push_back(c);
+  }
+  vector<double>& xp = xProbe();
+  vector<double>& xv = xValue();
+  for (int side = 0; side < 2; ++side)
+  {
+    vector<double> b = side == 0 ? los : his;
+    double base = side == 0 ? bL : bH;
+    sort(b.begin(), b.end());
+    b.erase(unique(b.begin(), b.end()), b.end());
+    for (size_t i = 0; i < b.size(); ++i)
+    {
+      if (!std::isfinite(b[i])) continue;
+      for (double x : { std::nextafter(b[i], -INF), b[i], std::nextafter(b[i], INF) }) { xp.push_back(x); xv.push_back(x); }
+      if (i + 1 < b.size() && std::isfinite(b[i + 1])) { double mid = b[i] + 0.5 * (b[i + 1] - b[i]); xp.push_back(mid); xv.push_back(mid); }
+    }
+    for (double x : { base - 0.125, base - 1e-11, base + 1e-11, base + 0.125 }) xp.push_back(x);
+  }
+  for (double t : { 0.25, 0.5, 0.75 }) { double x = bL + t * (bH - bL); xp.push_back(x); xv.push_back(x); }
+  sort(xp.begin(), xp.end());
+  xp.erase(unique(xp.begin(), xp.end()), xp.end());
+  sort(xv.begin(), xv.end());
+  xv.erase(unique(xv.begin(), xv.end()), xv.end());
+}
+
 Obj* makeObject(World& w, int n, const string& ns, bool constrained)
 {
   vrt::Rng& r = w.c.rng;
@@ -550,12 +652,39 @@ Obj* makeObject(World& w, int n, const string& ns, bool constrained)
   r.shuffle(names);
   o->real.reset(new TD(ns));
   string text = o->tag + " = new('" + ns + "'";
+  vector<size_t> fam;
+  if (w.near)
+  {
+    for (size_t i = 0; i < w.family.size(); ++i) fam.push_back(i);
+    r.shuffle(fam);
+  }
   for (int i = 0; i < n; ++i)
   {
-    Itv c = constrained ? pool()[r.below(pool().size())] : NONE;
+    Itv c;
     vector<double> cand;
-    bool core = r.chance(0.7);
-    for (double x : valueGrid()) if (okI(c, x) && (!core || (x >= 0.5 && x <= 3.5))) cand.push_back(x);
+    if (w.near)
+    {
+      // members of the family, each at most once per object (their bounds are pairwise different); values mostly
+      // inside every member so that most alias requests are inside the quantifier
+      c = r.chance(0.12) ? NONE : w.family[fam[static_cast<size_t>(i) % fam.size()]];
+      bool common = r.chance(0.8);
+      for (int pass = 0; pass < 2; ++pass)
+        for (double x : (pass == 0 ? valueGrid() : xValue()))
+        {
+          bool ok = okI(c, x);
+          if (common) for (const Itv& f : w.family) ok = ok && okI(f, x);
+          if (ok) cand.push_back(x);
+        }
+      if (cand.empty())
+        for (int pass = 0; pass < 2; ++pass)
+          for (double x : (pass == 0 ? valueGrid() : xValue())) if (okI(c, x)) cand.push_back(x);
+    }
+    else
+    {
+      c = constrained ? pool()[r.below(pool().size())] : NONE;
+      bool core = r.chance(0.7);
+      for (double x : valueGrid()) if (okI(c, x) && (!core || (x >= 0.5 && x <= 3.5))) cand.push_back(x);
+    }
     double v = cand[r.below(cand.size())];
     o->m.nm.push_back(names[static_cast<size_t>(i)]);
     o->m.val.push_back(v);
@@ -582,6 +711,13 @@ bool opAlias(World& w, Obj& o, int p1, int p2)
   bool cyc = p1 == p2 || m.isAnc(p2, p1);
   int len = cyc ? m.depthBelow(p2, p1) + 1 : 0;
   w.op(o.tag + ".aliasParameters(" + m.nm[u1] + "," + m.nm[u2] + ")");
+  // Two different constraints whose descriptions (6 significant digits) read the same - only possible with
+  // almost equal bounds: the class documents that constraints are told apart by their description.
+  bool sameDesc = false;
+  if (m.con[u1].has && m.con[u2].has && !sameI(m.con[u1], m.con[u2]))
+    vrt::capture([&] {
+        sameDesc = o.real->parameter(m.nm[u1]).getConstraint()->getDescription() == o.real->parameter(m.nm[u2]).getConstraint()->getDescription();
+      });
   vrt::Outcome oc = vrt::capture([&] { o.real->aliasParameters(m.nm[u1], m.nm[u2]); });
   if (dbl || cyc)
   {
@@ -595,13 +731,22 @@ bool opAlias(World& w, Obj& o, int p1, int p2)
     return auditAll(w, &o, "alias-refused:" + cls, nullptr);
   }
   bool c1 = m.con[u1].has, c2 = m.con[u2].has;
-  string kind = c1 && c2 ? (sameI(m.con[u1], m.con[u2]) ? "both-same" : "both") : c1 ? "source-only" : c2 ? "aliased-only" : "none";
+  bool nearPair = c1 && c2 && (nearBound(m.con[u1].lo, m.con[u2].lo) || nearBound(m.con[u1].hi, m.con[u2].hi));
+  string kind = c1 && c2 ? (sameI(m.con[u1], m.con[u2]) ? "both-same" : sameDesc ? "both-same-description" : nearPair ? "both-near" : "both") : c1 ? "source-only" : c2 ? "aliased-only" : "none";
   vrt::cover("alias:valid:cons=" + kind + ":srcdepth" + str(min(3, m.depthBelow(m.root(p1), p1))) + ":subtree" + str(min<size_t>(3, m.desc(p2).size())) + ":" + nsKey(m));
   if (!vrt::expect(oc.returned(), "alias.accepts-valid", "cons=" + kind, [&] { return w.history() + " => " + oc.text() + " ; model " + m.dump(); })) return false;
   Expect ex;
   ex.focus = p2;
   Itv nc = interI(m.con[u1], m.con[u2]);
-  if (c1 && c2) { ex.conLU[p1] = make_pair(nc, nc); ex.conLU[p2] = make_pair(nc, nc); }
+  if (c1 && c2 && sameDesc)
+  {
+    // the two constraints cannot be told apart by the documented means: each end accepts at least the
+    // intersection and at most what it accepted before (the common value then still satisfies both)
+    ex.conLU[p1] = make_pair(nc, m.con[u1]);
+    ex.conLU[p2] = make_pair(nc, m.con[u2]);
+    vrt::tally("open-behaviour:alias-of-constraints-with-the-same-description");
+  }
+  else if (c1 && c2) { ex.conLU[p1] = make_pair(nc, nc); ex.conLU[p2] = make_pair(nc, nc); }
   else if (c2) { ex.conLU[p1] = make_pair(m.con[u2], m.con[u2]); }
   else if (c1) { ex.conLU[p2] = make_pair(m.con[u1], NONE); }
   m.par[u2] = p1;
@@ -926,12 +1071,13 @@ bool aliasInQuantifier(const Model& m, int p1, int p2)
   return true;
 }
 
-bool genAlias(World& w, Obj& o)
+bool genAlias(World& w, Obj& o, bool forceValid = false)
 {
   vrt::Rng& r = w.c.rng;
   Model& m = o.m;
   int n = m.n();
   double k = r.unit();
+  if (forceValid) k = 0.;
   for (int attempt = 0; attempt < 12; ++attempt)
   {
     int p1 = static_cast<int>(r.below(static_cast<size_t>(n))), p2 = static_cast<int>(r.below(static_cast<size_t>(n)));
@@ -1072,6 +1218,9 @@ bool genSet(World& w, Obj& o)
       bool inside = true;
       for (int i = 0; i < n; ++i) if (!okI(m.con[static_cast<size_t>(i)], st[static_cast<size_t>(i)])) inside = false;
       for (const Assign& a : as) for (int j : m.desc(a.i)) if (!okI(m.con[static_cast<size_t>(j)], a.v)) inside = false;
+      // (group `near`) ends whose constraints read the same may keep their own: a direct write to an aliased
+      // parameter stays inside what its sources accept as well
+      if (w.near) for (const Assign& a : as) for (int j : m.ancs(a.i)) if (!okI(m.con[static_cast<size_t>(j)], a.v)) inside = false;
       if (!inside) { vrt::tally("skipped:value-outside-constraints"); continue; }
     }
     if (staleCorner(m, as))
@@ -1162,17 +1311,26 @@ bool genBulk(World& w, Obj& o)
 }
 
 // ---------------------------------------------------------------- random histories
-void runHistory(vrt::Case& c, bool withBulk)
+void runHistory(vrt::Case& c, bool withBulk, bool nearMode = false)
 {
   vrt::Rng& r = c.rng;
   World w(c);
-  int n = static_cast<int>(r.range(2, 6));
+  int n = static_cast<int>(nearMode ? r.range(2, 4) : r.range(2, 6));
   string ns = r.chance(0.5) ? "" : nsPool()[1 + r.below(nsPool().size() - 1)];
-  bool constrained = r.chance(0.75);
-  size_t len = static_cast<size_t>(withBulk ? r.range(1, 12) : r.range(3, 25));
-  vrt::describe(string(withBulk ? "history+bulk" : "history") + ":n" + str(n) + (ns.empty() ? ":ns0" : ":ns1"), "random history of length " + str(len) + " on " + str(n) + " parameters, namespace '" + ns + "'");
+  bool constrained = nearMode || r.chance(0.75);
+  size_t len = static_cast<size_t>(nearMode ? r.range(2, 10) : withBulk ? r.range(1, 12) : r.range(3, 25));
+  vrt::describe(string(nearMode ? "history+near" : withBulk ? "history+bulk" : "history") + ":n" + str(n) + (ns.empty() ? ":ns0" : ":ns1"), "random history of length " + str(len) + " on " + str(n) + " parameters, namespace '" + ns + "'");
+  if (nearMode)
+  {
+    w.near = true;
+    makeFamily(w);
+  }
   makeObject(w, n, ns, constrained);
   if (!auditAll(w, nullptr, "construct", nullptr)) return;
+  // (group `near`) the history starts with links between the almost equal constraints
+  if (nearMode)
+    for (int q = 0, cnt = static_cast<int>(r.range(1, 2)); q < cnt; ++q)
+      if (!genAlias(w, *w.live[0], true)) return;
   for (size_t s = 0; s < len; ++s)
   {
     Obj& o = *w.live[r.below(w.live.size())];
@@ -1215,6 +1373,7 @@ void runHistory(vrt::Case& c, bool withBulk)
 
 void caseHistory(vrt::Case& c) { runHistory(c, false); }
 void caseBulk(vrt::Case& c) { runHistory(c, true); }
+void caseNear(vrt::Case& c) { runHistory(c, false, true); }
 
 // ---------------------------------------------------------------- enumerated alias sequences
 // index -> (n, three alias requests (p1,p2) over n parameters); then a fixed tail that drives every route,
@@ -1393,6 +1552,7 @@ int main(int argc, char** argv)
   vector<vrt::Group> groups = {
     { "history", 40000, 500000, caseHistory, 600, false },
     { "bulk", 12000, 100000, caseBulk, 90, false },
+    { "near", 4000, 40000, caseNear, 600, false },
     { "enum", enumCount(4), enumCount(5), caseEnum, 600, true },
     { "known-witness", 1, 1, caseKnownWitness, 300, false },
   };
@@ -1404,11 +1564,15 @@ int main(int argc, char** argv)
       "setNamespace, destruction of one of the objects; every live object is audited after every call. bulk: shorter histories that also call aliasParameters(map) with forests, cycles "
       "(length 1..4), already aliased keys, unknown names, the empty map and random maps, names with or without the namespace; a structural class is journalled before each call so that "
       "a hang is attributable. enum: every sequence of three alias requests over 2..4 (thorough: 5) parameters followed by a fixed tail (every update route on every parameter, copy, "
-      "renaming, unalias of every link, assignment in both directions, self assignment, destruction). A class key = (operation, structural situation: validity / refusal reason, which "
+      "renaming, unalias of every link, assignment in both directions, self assignment, destruction). near: histories (2..10 operations after one or two valid links) on objects whose "
+      "constraints come from a family of six intervals with pairwise different but almost equal lower and/or upper bounds (0, a few ulps, 1e-15 .. 9e-13, sometimes 2e-12 or 1e-9 around "
+      "bases 0, +-1e-9 .. 2.5e-7 and values of order 1; the other side common, clearly different or unbounded); every audit also probes acceptance at every bound, its two neighbouring "
+      "doubles and the midpoints between neighbouring bounds. A class key = (operation, structural situation: validity / refusal reason, which "
       "ends are constrained, depth of the source, size of the aliased subtree, route, independent or aliased target, links carried by a copy, namespace present).";
   meta.assumptions = {
     "values inside the constraints of the updated parameter and of everything aliased to it; alias requests only when both current values lie inside the intersection",
-    "interval pool with pairwise distinct bounds (equal bounds with different open/closed flags are C01's subject), no precision on parameters",
+    "interval pool with pairwise distinct bounds (equal bounds with different open/closed flags are C01's subject; group near: bounds of one side are pairwise different too, but only by a few ulps .. 1e-9), no precision on parameters",
+    "two different constraints whose getDescription() strings are equal (almost equal bounds of order 1, other side identical) cannot be told apart by the class: after aliasing each end accepts at least the intersection and at most what it accepted before",
     "an aliased parameter may take its source's value at alias time or only at the source's next change; an update that does not change its target may or may not re-synchronise the aliases; both accepted",
     "getAliases may map an aliased parameter to any of its (direct or indirect) sources; names returned by getAlias/getAliases/getFrom are compared modulo the namespace; getFrom is asked with and without namespace",
     "getAliasedParameters/getFromParameters are only observed without namespace",
